@@ -68,7 +68,7 @@ def run(tier, seed):
         v.notes.append(str(res['drift_samples'][:2])[:600])
     v.coverage = dict(states=r['distinct'], transitions=r['generated'], depth=r['depth'],
                       constants=dict(codes=2, topologies=4, attacker_codes="every subset", alteration_classes=6),
-                      behaviours_replayed=res['behaviours'],
+                      traces_validated_against_impl=res['behaviours'],
                       replay=dict(attack_scripts=scripts['behaviours'], of=r['edges'], bit_and_truncation_cases=bits['behaviours'], of_bits=901,
                                   extra_connection_scripts=extras['behaviours'], outcomes=scripts['extra'].get('outcomes'),
                                   bit_outcomes=bits['extra'].get('outcomes'), extras_outcomes=extras['extra'].get('outcomes')),
